@@ -1,5 +1,5 @@
 (* C15 (a): a table-map event decodes to exactly the schema the master logged. *)
-From GB Require Import Base.Prelude Base.BytesLemmas Model.Header Model.Events Model.Cell Model.Rbr.
+From GB Require Import Proofs.TableIdProofs Base.Prelude Base.BytesLemmas Model.Header Model.Events Model.Cell Model.Rbr.
 From GB Require Import Spec.EncHeader Spec.Values Spec.EncEvent Spec.Expect.
 From GB Require Import Proofs.CellCommon Proofs.BitmapProofs Proofs.EventFrame.
 From GBGen Require Import Consts.
@@ -180,7 +180,8 @@ Theorem tablemap_table_id c v h t crc :
    ev_table_id (expect_format c v) ev) = Ok (td_id t).
 Proof.
   intros Wc (Hid & _) Hh.
-  rewrite strip_enc_ev. cbn [bind]. unfold ev_table_id.
+  rewrite strip_enc_ev. cbn [bind].
+  rewrite ev_table_id_lin_eq by (cbn [expect_format f_hlen]; pose proof (wf_cfg_hlen c Wc); lia). unfold ev_table_id_lin.
   rewrite ev_type_frame, Hh. cbn [bind].
   rewrite header_size_ok by (auto; lia). cbn [bind]. rewrite post_header_tm.
   unfold enc_table_map_body, enc_table_id. cbn [expect_format f_hlen].
